@@ -2,6 +2,7 @@ package main
 
 import (
 	"bytes"
+	"io"
 	"math"
 	"math/rand"
 	"sort"
@@ -580,6 +581,7 @@ func samDrive(args []string) error {
 			file = append(file, line...)
 			want = append(want, before)
 		}
+		catch(func() { x := samRecord(newRand(int64(sid) + 99991)); x.MarshalText(); x.Write(io.Discard) }) // one more call after the last record
 		for _, h := range hs {
 			h.ev.BM = ints(h.bm)
 			tw.emit(h.ev)
@@ -644,6 +646,12 @@ func samDrive(args []string) error {
 	return tw.close()
 }
 
+// tokens that are not decimal integers but that a hand-written or lenient parser may let through: a lone sign, two signs, a sign in
+// the wrong place, blanks, digit separators, exponents, other bases, digits of other scripts, values beyond int64
+var samJunkInts = []string{"x", "", "-", "+", "1.5", "12a", "--1", "+-1", "1-", "0x10", " 1", "1 ", "1_0", "1e3", "0b1", "\u0663", "\u0661\u0662",
+	"9223372036854775808", "-9223372036854775809", "1,0", "\u22121", "NaN"}
+var samJunkNext int
+
 var samCorruptions = []string{"few-fields", "int-flag", "int-pos", "int-mapq", "int-pnext", "int-tlen", "tag-one-colon", "tag-no-colon",
 	"tag-unknown-type", "tag-A-empty", "tag-A-two", "tag-i-text", "tag-H-odd", "tag-H-nonhex", "tag-f-text", "only-blanks"}
 
@@ -657,7 +665,8 @@ func samCorruptLine(r *rand.Rand, line []byte, kind string) []byte {
 	join := func(x [][]byte) []byte { return bytes.Join(x, []byte("\t")) }
 	setInt := func(i int) []byte {
 		x := cp()
-		x[i] = [][]byte{[]byte("x"), []byte(""), []byte("1.5"), []byte("12a"), []byte("--1"), []byte("0x10")}[r.Intn(6)]
+		x[i] = []byte(samJunkInts[samJunkNext%len(samJunkInts)]) // every token in turn
+		samJunkNext++
 		return join(x)
 	}
 	addTag := func(t string) []byte {
@@ -696,7 +705,8 @@ func samCorruptLine(r *rand.Rand, line []byte, kind string) []byte {
 	case "tag-A-two":
 		return addTag("XQ:A:ab")
 	case "tag-i-text":
-		return addTag("XQ:i:" + []string{"x", "", "1.5", "1e3"}[r.Intn(4)])
+		samJunkNext++
+		return addTag("XQ:i:" + samJunkInts[samJunkNext%len(samJunkInts)])
 	case "tag-H-odd":
 		return addTag("XQ:H:abc")
 	case "tag-H-nonhex":
